@@ -8,7 +8,7 @@ use crate::utils::fmt::WriteOrPanic;
 
 /// A helper type for building a JSON-encoded string on the fly.
 ///
-/// Note that the builder only supports strings without control characters.
+/// Strings are escaped via [`json_str`].
 pub struct JsonBuilder<'a> {
     target: &'a mut String,
     indent: usize,
@@ -147,15 +147,28 @@ impl JsonBuilder<'_> {
 
 //------------ json_str -----------------------------------------------------
 
+/// Returns a value displaying `val` as the content of a JSON string.
+///
+/// Quotation marks and backslashes are escaped with a backslash, control
+/// characters as `\u00XX`.
 pub fn json_str(val: impl fmt::Display) -> impl fmt::Display {
     struct WriteJsonStr<'a, 'f>(&'a mut fmt::Formatter<'f>);
 
     impl fmt::Write for WriteJsonStr<'_, '_> {
         fn write_str(&mut self, mut s: &str) -> fmt::Result {
-            while let Some(idx) = s.find(['"', '\\']) {
+            while let Some(idx) = s.find(
+                |ch: char| ch == '"' || ch == '\\' || ch < '\u{20}'
+            ) {
                 self.0.write_str(&s[..idx])?;
-                self.0.write_str("\\")?;
-                write!(self.0, "{}", char::from(s.as_bytes()[idx]))?;
+                // The character found is ASCII, so it is one byte long.
+                let ch = s.as_bytes()[idx];
+                if ch < 0x20 {
+                    write!(self.0, "\\u{:04x}", ch)?;
+                }
+                else {
+                    self.0.write_str("\\")?;
+                    write!(self.0, "{}", char::from(ch))?;
+                }
                 s = &s[idx + 1..];
             }
             self.0.write_str(s)
